@@ -25,7 +25,7 @@ TECHNIQUE = "property-based testing with a universal observer: directed generato
 RULE = ("directed: typed / mixed vectors with None x {reflected + with wider scalar or list, unary - + abs ~, << with scalar / list / "
         "vector of other kinds, cast, fillna, dropna, isna, method proxies, copy, slice, mask, to_object, sort_by, unique, binary "
         "math}; assignment cases of C08; result columns of joins, aggregate, window, sort_by, read_csv; every live object after every "
-        "step of world histories. Predicate: every non-None element belongs to the reported kind (documented widenings count), None "
+        "step of world histories; the rows a table hands out (t[i], iteration, their copies); operands built fresh or promoted in place. Predicate: every non-None element belongs to the reported kind (documented widenings count), None "
         "only if nullable, and v[i] = v[i] is accepted without changing the dtype. Non-trivial = a result whose kind differs from an "
         "operand kind, or that contains None, or that went through assignment promotion; distinct = case encoding.")
 ASSUMPTIONS = [
